@@ -190,7 +190,7 @@ def batch_followups(rng, tier, built):
         if tier == 'quick' and small and n > 60 and rng.chance(1, 2):
             cuts = sorted(set(rng.below(n) for _ in range(20)))
         for c in cuts:
-            out.append(('batch_iter %s' % hx(img[:c]), {'kind': 'iter_cut', 'img': img[:c]}))
+            out.append(('batch_iter %s' % hx(img[:c]), {'kind': 'iter_cut', 'cut': c}))
         # header count off by one / huge; tag alterations; random tail
         for cnt in {(len(m['ops']) + 1) & M32, (len(m['ops']) - 1) & M32, M32, 1 << 31}:
             alt = img[:8] + cnt.to_bytes(4, 'little') + img[12:]
@@ -452,7 +452,7 @@ def edit_followups(rng, tier, built):
             cuts = sorted(set([rng.choice(ends) + d for d in (-1, 0, 1) for _ in range(k)] + [rng.below(n) for _ in range(k)]))
             cuts = [c for c in cuts if 0 <= c < n]
         for c in cuts:
-            out.append(('edit_import %s' % hx(enc[:c]), {'kind': 'import_cut', 'enc': enc[:c], 'cut': c}))
+            out.append(('edit_import %s' % hx(enc[:c]), {'kind': 'import_cut', 'cut': c}))     # bytes: second token of the line
         if n <= 4000:
             ends = record_ends(e)
             for _ in range(4):
